@@ -17,6 +17,25 @@ theorem wfItem_zero (inp : Bytes) : WfItem inp Item.zero := by
   refine ⟨by simp [Item.zero], by simp [Item.zero], ?_⟩
   intro h; simp [Item.zero] at h
 
+/-- the lexer sends the end-of-file item, if it sends one, as its last item (`lexText` returns
+    `nil` right after emitting it, the goroutine then closes the channel) -/
+def EofLast (toks : List Item) : Prop :=
+  ∀ pre t post, toks = pre ++ t :: post → t.typ = Tok.eof → post = []
+
+theorem EofLast.tail {t : Item} {ts : List Item} (h : EofLast (t :: ts)) : EofLast ts :=
+  fun pre x post e hx => h (t :: pre) x post (by simp [e]) hx
+
+theorem EofLast.head {t : Item} {ts : List Item} (h : EofLast (t :: ts)) (ht : t.typ = Tok.eof) : ts = [] :=
+  h [] t ts rfl ht
+
+theorem eofLast_nil : EofLast [] := by
+  intro pre t post e _
+  simp at e
+
+/-- once an end-of-file item sits in the look-ahead buffer, nothing is left in the channel -/
+def EofOk (toks : List Item) (t0 t1 t2 : Item) : Prop :=
+  EofLast toks ∧ (t0.typ = Tok.eof → toks = []) ∧ (t1.typ = Tok.eof → toks = []) ∧ (t2.typ = Tok.eof → toks = [])
+
 structure Wf (inp : Bytes) (s : PSt) : Prop where
   input : s.input = inp
   toks : ∀ t ∈ s.toks, WfItem inp t
@@ -25,6 +44,7 @@ structure Wf (inp : Bytes) (s : PSt) : Prop where
   t2 : WfItem inp s.t2
   last0 : 0 ≤ s.lastPos
   last1 : s.lastPos ≤ inp.length
+  eof : EofOk s.toks s.t0 s.t1 s.t2
 
 /-- well-formed state with at most `k` items pushed back -/
 def Inv (inp : Bytes) (k : Nat) (s : PSt) : Prop := Wf inp s ∧ s.peekCount ≤ k
@@ -151,18 +171,25 @@ theorem unexpected_safe {α} (k : Nat) (tk : Item) (c e : String) (Q : α → PS
     · exact errorf_safe inp k _ Q
 
 theorem nextItem_safe (k : Nat) :
-    Safe (Inv inp k) nextItem (fun a s => Inv inp k s ∧ WfItem inp a) := by
+    Safe (Inv inp k) nextItem (fun a s => Inv inp k s ∧ WfItem inp a ∧ (a.typ = Tok.eof → s.toks = [])) := by
   intro s hs
   obtain ⟨w, hk⟩ := hs
   unfold nextItem
   cases ht : s.toks with
   | nil =>
     simp
-    exact ⟨⟨⟨w.input, by simp [ht], w.t0, w.t1, w.t2, Int.le_refl 0, by simp⟩, hk⟩, wfItem_zero inp⟩
+    have he := w.eof
+    rw [ht] at he
+    exact ⟨⟨⟨w.input, by simp, w.t0, w.t1, w.t2, Int.le_refl 0, by simp, he⟩, hk⟩, wfItem_zero inp⟩
   | cons t ts =>
     simp
     have wt : WfItem inp t := w.toks t (by simp [ht])
-    exact ⟨⟨⟨w.input, fun x hx => w.toks x (by simp [ht, hx]), w.t0, w.t1, w.t2, wt.1, wt.2.1⟩, hk⟩, wt⟩
+    have he := w.eof
+    rw [ht] at he
+    have hne : ∀ x : Item, (x.typ = Tok.eof → t :: ts = []) → (x.typ = Tok.eof → ts = []) :=
+      fun x h hx => by have := h hx; simp at this
+    exact ⟨⟨⟨w.input, fun x hx => w.toks x (by simp [ht, hx]), w.t0, w.t1, w.t2, wt.1, wt.2.1,
+      ⟨he.1.tail, hne _ he.2.1, hne _ he.2.2.1, hne _ he.2.2.2⟩⟩, hk⟩, wt, fun h => he.1.head h⟩
 
 /-- the item `next` is going to return when something is pushed back -/
 def slotAt (s : PSt) : Nat → Item
@@ -203,17 +230,17 @@ theorem next_safe :
     cases hn : nextItem s with
     | ok it s1 =>
       rw [hn] at hni
-      obtain ⟨⟨w1, _⟩, wit⟩ := hni
+      obtain ⟨⟨w1, _⟩, wit, hit⟩ := hni
       have hpc1 : s1.peekCount = 0 := by rw [nextItem_pc s it s1 hn]; exact hp
       simp [PRes.andThen, hpc1, tokenAt]
-      exact ⟨⟨⟨w1.input, w1.toks, wit, w1.t1, w1.t2, w1.last0, w1.last1⟩, by simp [hpc1]⟩, wit, by simp [slotAt, hpc1]⟩
+      exact ⟨⟨⟨w1.input, w1.toks, wit, w1.t1, w1.t2, w1.last0, w1.last1, ⟨w1.eof.1, hit, w1.eof.2.2⟩⟩, by simp [hpc1]⟩, wit, by simp [slotAt, hpc1]⟩
     | err l m => rw [hn] at hni; simp [PRes.andThen]; exact hni
     | crash w' => rw [hn] at hni; exact hni.elim
     | fuel => simp [PRes.andThen]
     | unsupported w' => simp [PRes.andThen]
   · obtain ⟨k, hk1⟩ : ∃ k, s.peekCount = k + 1 := ⟨s.peekCount - 1, by omega⟩
     rw [next_pushed_eq s k hk1]
-    have hw : Wf inp { s with peekCount := k } := ⟨w.input, w.toks, w.t0, w.t1, w.t2, w.last0, w.last1⟩
+    have hw : Wf inp { s with peekCount := k } := ⟨w.input, w.toks, w.t0, w.t1, w.t2, w.last0, w.last1, w.eof⟩
     have hc : k = 0 ∨ k = 1 := by omega
     rcases hc with hc | hc
     · subst hc; simp [tokenAt]; exact ⟨⟨hw, by simp⟩, w.t0, by simp [slotAt]⟩
@@ -223,7 +250,7 @@ theorem backup_safe (k : Nat) : Safe (Inv inp k) backup (fun _ s => Inv inp (k +
   intro s hs
   obtain ⟨w, hk⟩ := hs
   simp [backup, modify]
-  exact ⟨⟨w.input, w.toks, w.t0, w.t1, w.t2, w.last0, w.last1⟩, by simp; omega⟩
+  exact ⟨⟨w.input, w.toks, w.t0, w.t1, w.t2, w.last0, w.last1, w.eof⟩, by simp; omega⟩
 
 /-- `backup` right after an item was returned from slot `peekCount`: that item is the one pushed back -/
 theorem backup_safe_slot (k : Nat) (a : Item) :
@@ -232,14 +259,15 @@ theorem backup_safe_slot (k : Nat) (a : Item) :
   intro s hs
   obtain ⟨⟨w, hk⟩, ha⟩ := hs
   simp [backup, modify]
-  exact ⟨⟨⟨w.input, w.toks, w.t0, w.t1, w.t2, w.last0, w.last1⟩, by simp; omega⟩, by simpa [slotAt] using ha⟩
+  exact ⟨⟨⟨w.input, w.toks, w.t0, w.t1, w.t2, w.last0, w.last1, w.eof⟩, by simp; omega⟩, by simpa [slotAt] using ha⟩
 
-theorem backup2_safe (k : Nat) (t : Item) (ht : WfItem inp t) :
+theorem backup2_safe (k : Nat) (t : Item) (ht : WfItem inp t) (hne : t.typ ≠ Tok.eof) :
     Safe (Inv inp k) (backup2 t) (fun _ s => Inv inp 2 s) := by
   intro s hs
   obtain ⟨w, _⟩ := hs
   simp [backup2, modify]
-  exact ⟨⟨w.input, w.toks, w.t0, ht, w.t2, w.last0, w.last1⟩, by simp⟩
+  exact ⟨⟨w.input, w.toks, w.t0, ht, w.t2, w.last0, w.last1,
+    ⟨w.eof.1, w.eof.2.1, fun h => (hne h).elim, w.eof.2.2.2⟩⟩, by simp⟩
 
 theorem peek_safe (k : Nat) (hk : 1 ≤ k) (hk2 : k ≤ 2) :
     Safe (Inv inp k) peek (fun a s => Inv inp k s ∧ WfItem inp a ∧ s.peekCount ≥ 1 ∧ a = slotAt s (s.peekCount - 1)) := by
@@ -254,9 +282,9 @@ theorem peek_safe (k : Nat) (hk : 1 ≤ k) (hk2 : k ≤ 2) :
     cases hn : nextItem s with
     | ok it s1 =>
       rw [hn] at hni
-      obtain ⟨⟨w1, _⟩, wit⟩ := hni
+      obtain ⟨⟨w1, _⟩, wit, hit⟩ := hni
       simp [PRes.andThen]
-      exact ⟨⟨⟨w1.input, w1.toks, wit, w1.t1, w1.t2, w1.last0, w1.last1⟩, by simp; omega⟩, wit, by simp [slotAt]⟩
+      exact ⟨⟨⟨w1.input, w1.toks, wit, w1.t1, w1.t2, w1.last0, w1.last1, ⟨w1.eof.1, hit, w1.eof.2.2⟩⟩, by simp; omega⟩, wit, by simp [slotAt]⟩
     | err l m => rw [hn] at hni; simp [PRes.andThen]; exact hni
     | crash w' => rw [hn] at hni; exact hni.elim
     | fuel => simp [PRes.andThen]
